@@ -15,12 +15,15 @@ class LibBase:
         raise Unsupported("the object under verification used as a value")
 
     def inline_accessor(self, ex, name, args, kw, st, lineno):
-        """a method of the class under verification that has no contract, takes no argument and whose body is a single
-        `return <expression>` (after docstrings and prints are dropped) is evaluated in place: mechanical inlining of a
-        side-effect-free accessor, nothing else is ever inlined.  -> outcomes or None"""
+        """a method of the class under verification that has no contract is executed in place if it is a small
+        straight-line helper: no loop, no yield, no nested definition, at most 12 statements (after docstrings and prints
+        are dropped), positional parameters only.  This is mechanical inlining of the real code (a refactoring that
+        moves two lines into a helper must not make the caller unverifiable); anything bigger needs a contract.
+        -> outcomes [(value, state)] or None"""
         import ast
         from pyvc import extract
-        if args or kw:
+        from pyvc.execute import Exc
+        if kw:
             return None
         try:
             prof = self.profile(ex.ctx.cls)
@@ -28,12 +31,32 @@ class LibBase:
         except Exception:
             return None
         body = [b for b in node.body if not (isinstance(b, ast.Pass) or (isinstance(b, ast.Expr) and isinstance(b.value, ast.Constant)))]
-        if len(node.args.args) != 1 or len(body) != 1 or not isinstance(body[0], ast.Return) or body[0].value is None:
+        params = [a.arg for a in node.args.args[1:]]
+        if len(params) != len(args) or node.args.vararg or node.args.kwarg or node.args.kwonlyargs or len(body) > 12:
             return None
-        for n in ast.walk(body[0].value):
-            if isinstance(n, (ast.Yield, ast.YieldFrom, ast.Await, ast.NamedExpr, ast.Lambda)):
+        for n in ast.walk(node):
+            if isinstance(n, (ast.Yield, ast.YieldFrom, ast.Await, ast.NamedExpr, ast.Lambda, ast.For, ast.While, ast.Try,
+                              ast.With, ast.FunctionDef, ast.ClassDef, ast.Global, ast.Nonlocal)) and n is not node:
                 return None
-        return ex.eval(body[0].value, st)
+        if len(body) == 1 and isinstance(body[0], ast.Return) and body[0].value is not None and not params:
+            return ex.eval(body[0].value, st)
+        s0 = st.fork()
+        saved = dict(s0.loc)
+        s0.loc = {"self": saved.get("self")} if "self" in saved else {}
+        for p_, a_ in zip(params, args):
+            s0.loc[p_] = a_
+        outs = []
+        for o in ex.exec_block(body, s0):
+            o.state.loc = dict(saved)
+            if o.kind == "return":
+                outs.append((o.value if o.value is not None else V.NONE, o.state))
+            elif o.kind == "next":
+                outs.append((V.NONE, o.state))
+            elif o.kind == "raise":
+                outs.append((o.value, o.state))
+            else:
+                return None
+        return outs
 
     # --- class/schema queries
     def is_method(self, cls, attr):
